@@ -6,7 +6,8 @@ EXTENDS Calendar, Sequences, FiniteSets, TLC
 CONSTANTS Anchors,     \* set of base day numbers (concretization anchors)
           Horizon,     \* days after the anchor the clock may reach
           MaxInc,      \* bound on increments per behaviour
-          MaxUp        \* bound on uploader runs
+          MaxUp,       \* bound on uploader runs
+          MaxSetW      \* bound on changes of the week-end setting (the `weekends` file rewritten)
 Tods == {0, 1, 43200, 86399}
 NoFile == [b |-> -1, e |-> -1]
 
@@ -14,9 +15,9 @@ VARIABLES base, w, day, tod,
           cur,        \* span the process writes to (NoFile before the first rotate)
           disk,       \* function: span -> count, the count files present
           reports,    \* function: week (end day) -> reported total
-          nInc, nUp,
+          nInc, nUp, nSetW,
           last        \* label of the last action (for replay)
-vars == <<base, w, day, tod, cur, disk, reports, nInc, nUp, last>>
+vars == <<base, w, day, tod, cur, disk, reports, nInc, nUp, nSetW, last>>
 
 Now == day * DaySecs + tod
 SpanAt(d) == [b |-> Begin(d), e |-> End(d, w)]
@@ -26,7 +27,7 @@ Init == /\ base \in Anchors
         /\ day = base /\ tod \in Tods
         /\ cur = NoFile
         /\ disk = <<>> /\ reports = <<>>
-        /\ nInc = 0 /\ nUp = 0
+        /\ nInc = 0 /\ nUp = 0 /\ nSetW = 0
         /\ last = "init"
 
 Put(f, k, v) == [x \in (DOMAIN f) \cup {k} |-> IF x = k THEN v ELSE f[x]]
@@ -36,13 +37,26 @@ Advance == /\ \E d2 \in day..(base + Horizon), t2 \in Tods :
                 /\ (d2 > day \/ t2 > tod)
                 /\ day' = d2 /\ tod' = t2
            /\ last' = "advance"
-           /\ UNCHANGED <<base, w, cur, disk, reports, nInc, nUp>>
+           /\ UNCHANGED <<base, w, cur, disk, reports, nInc, nUp, nSetW>>
+
+(* the configured week-end day changes (the file is rewritten); files that  *)
+(* exist keep the end they recorded, files opened later use the new setting *)
+(* (a file's name carries only its begin date: if the setting changed on a   *)
+(* day for which a file already exists, reopening that day's file would find *)
+(* another end recorded in it and fail with a header mismatch -- inherent in  *)
+(* the naming scheme and outside the property, so not modelled)               *)
+SetW == /\ nSetW < MaxSetW
+        /\ \A f \in DOMAIN disk : f.b # day
+        /\ \E w2 \in 0..6 : w2 # w /\ w' = w2
+        /\ nSetW' = nSetW + 1
+        /\ last' = "setw"
+        /\ UNCHANGED <<base, day, tod, cur, disk, reports, nInc, nUp>>
 
 (* rotate1: (re)open the file of the span that contains `now`. *)
 Rotate == /\ cur' = SpanAt(day)
           /\ disk' = IF SpanAt(day) \in DOMAIN disk THEN disk ELSE Put(disk, SpanAt(day), 0)
           /\ last' = "rotate"
-          /\ UNCHANGED <<base, w, day, tod, reports, nInc, nUp>>
+          /\ UNCHANGED <<base, w, day, tod, reports, nInc, nUp, nSetW>>
 
 (* an increment lands in the file the process has open (and is invisible if  *)
 (* the uploader has already removed that file)                               *)
@@ -50,7 +64,7 @@ Inc == /\ cur # NoFile /\ nInc < MaxInc
        /\ disk' = IF cur \in DOMAIN disk THEN [disk EXCEPT ![cur] = @ + 1] ELSE disk
        /\ nInc' = nInc + 1
        /\ last' = "inc"
-       /\ UNCHANGED <<base, w, day, tod, cur, reports, nUp>>
+       /\ UNCHANGED <<base, w, day, tod, cur, reports, nUp, nSetW>>
 
 (* an uploader run (mode local) that starts at `now`: every finished file is *)
 (* folded into the report of the week named by its end day; a week whose     *)
@@ -71,16 +85,18 @@ Upload == /\ nUp < MaxUp
                 /\ disk' = Drop(disk, {f \in fin : WeekOf(f.e) \in goneWeeks})
           /\ nUp' = nUp + 1
           /\ last' = "upload"
-          /\ UNCHANGED <<base, w, day, tod, cur, nInc>>
+          /\ UNCHANGED <<base, w, day, tod, cur, nInc, nSetW>>
 
-Next == Advance \/ Rotate \/ Inc \/ Upload
+Next == Advance \/ SetW \/ Rotate \/ Inc \/ Upload
 Spec == Init /\ [][Next]_vars
 
 (* ---- the property ---- *)
 SpansOK == \A f \in (DOMAIN disk) \cup ({cur} \ {NoFile}) :
               /\ f.e - f.b \in 1..7
-              /\ Wd(f.e) = w
-RotateOpensToday == [][last' = "rotate" => (cur'.b = day /\ cur'.e > day)]_vars
+              /\ (nSetW = 0 => Wd(f.e) = w)
+(* a newly opened file begins today and ends on the first later day that falls on the weekday configured NOW *)
+RotateOpensToday == [][last' = "rotate" => (cur'.b = day /\ cur'.e > day /\ cur'.e - day \in 1..7 /\ Wd(cur'.e) = w
+                                            /\ \A k \in 1..6 : day + k < cur'.e => Wd(day + k) # w)]_vars
 (* increments land only in the file opened by the latest rotate *)
 IncOnlyInCurrent == [][last' = "inc" =>
                         \A f \in DOMAIN disk : f # cur => (f \in DOMAIN disk' /\ disk'[f] = disk[f])]_vars
@@ -90,5 +106,5 @@ UploadAgrees == [][last' = "upload" =>
                     /\ \A wk \in (DOMAIN reports') \ (DOMAIN reports) : \E f \in DOMAIN disk : f.e = wk]_vars
 (* nothing is counted twice or invented *)
 Conservation == SumF(disk, DOMAIN disk) + SumF(reports, DOMAIN reports) <= nInc
-View == <<base, w, day, tod, cur, disk, reports, nInc, nUp>>
+View == <<base, w, day, tod, cur, disk, reports, nInc, nUp, nSetW>>
 =============================================================================
